@@ -202,7 +202,11 @@ Definition guard_op (σ : store V) (o : op) : gclass :=
                              its storage see their elements move (as for Transpose) *)
                           if is_some (d_old d)
                              && (1 <? Z.of_nat (length (filter (fun x => Nat.eqb (d_buf x) (d_buf d)) (tens V σ))))
-                          then GAliasedStorage else GOk
+                          then GAliasedStorage
+                          (* a view whose contiguity flag is unsound (a slice along the leading axis of
+                             a lazily transposed tensor) is reshaped as if its window were its content
+                             (guard gap found by the proof of history_refines) *)
+                          else if negb (flag_soundb d) then GFlagUnsound else GOk
                         | g => g end)
   | OCopy dt st => on dt (fun d => on st (fun s => if after_vector_T d || after_vector_T s then GVectorAxes else guard_copy d s))
   | OSafeT t axes => on t (fun d => guard_safeT d axes)
@@ -213,7 +217,12 @@ Definition guard_op (σ : store V) (o : op) : gclass :=
                    | g => g end)
   | ORollAxis t _ _ safe =>
     on t (fun d => match guard_read d with
-                   | GOk | GFlagUnsound => if negb safe && is_some (d_old d) then GPendingTranspose else GOk
+                   | GOk | GFlagUnsound =>
+                     if negb safe && is_some (d_old d) then GPendingTranspose
+                     (* RollAxis is a T / SafeT: the same vector special case applies (guard gap found by
+                        the proof of history_refines) *)
+                     else if is_vector (shp (d_ap d)) && negb (allones (str (d_ap d))) then GVectorAxes
+                     else GOk
                    | g => g end)
   | _ => GOk
   end.
